@@ -234,27 +234,28 @@ Print Assumptions C03_crew_moved_from_is_null_released_once.
 
 (* DataTable(const DataTable&) / selection constructors as fixed in 91ea186: crew, pvFill (pvImportRaw with its own
    roll-back, AddRaw with catch { pvDestroyRaw }), the outer catch { pvDestroyRaws(); mRaws.Clear(); } and ~DataTable of the
-   delegating constructor: for every schedule, every number of rows and columns, nothing is destroyed or freed twice and the
+   delegating constructor: for every schedule, every number of rows, ANY number of items per row (colsf is an arbitrary function of the row index), nothing is destroyed or freed twice and the
    world ends exactly as it started. *)
 Theorem C03_datatable_copy_ctor_no_leak :
-  forall mgr rsz crewsz cols haskey linkfail sr kr n s f bs,
+  forall mgr rsz crewsz colsf haskey linkfail stride, 0 <= stride -> forall sr kr n s f bs,
     rows_world s f bs sr kr ->
-    post (dt_copy_then_destroy mgr rsz crewsz cols haskey linkfail true sr kr n) s
+    post (dt_copy_then_destroy mgr rsz crewsz colsf haskey linkfail stride true sr kr n) s
          (fun _ s' => st_is s' f bs (nextb s')) (fun s' => st_is s' f bs (nextb s')).
 Proof. exact Effects2Proofs.dt_copy_then_destroy_post. Qed.
 Print Assumptions C03_datatable_copy_ctor_no_leak.
 
 Theorem C03_datatable_copy_ctor_any_schedule :
-  forall mgr rsz crewsz cols n sch,
-    post (dt_copy_then_destroy mgr rsz crewsz cols false true true (-1) (-2) n) (rows_init sch)
+  forall mgr rsz crewsz colsf stride n sch,
+    0 <= stride ->
+    post (dt_copy_then_destroy mgr rsz crewsz colsf false true stride true (-1) (-2) n) (rows_init sch)
          (fun _ s' => back_to_start s') (fun s' => back_to_start s').
 Proof. exact Effects2Proofs.dt_copy_any_schedule. Qed.
 Print Assumptions C03_datatable_copy_ctor_any_schedule.
 
 Theorem C03_datatable_fill_double_destroy_refuted :
   exists (n : nat) (sch : list bool),
-    is_stuck (dt_copy_then_destroy 1 40 24 2 false true false (-1) (-2) n (rows_init sch)) = true /\
-    is_stuck (dt_copy_then_destroy 1 40 24 2 false true true (-1) (-2) n (rows_init sch)) = false.
+    is_stuck (dt_copy_then_destroy 1 40 24 (fun _ => 2%nat) false true 2 false (-1) (-2) n (rows_init sch)) = true /\
+    is_stuck (dt_copy_then_destroy 1 40 24 (fun _ => 2%nat) false true 2 true (-1) (-2) n (rows_init sch)) = false.
 Proof. exact Effects2Proofs.dt_fill_double_destroy_refuted. Qed.
 Print Assumptions C03_datatable_fill_double_destroy_refuted.
 
@@ -262,16 +263,17 @@ Print Assumptions C03_datatable_fill_double_destroy_refuted.
    value array (built with roll-back), the insertion with catch { valueArray.Clear(); }, the outer catch
    { pvClearValueArrays(); mValueCrew.Destroy(); } and the destructor that follows with its IsNull guard *)
 Theorem C03_hashmultimap_ctor_no_leak :
-  forall mgr rsz crewsz cols haskey linkfail sr kr n s f bs,
+  forall mgr rsz crewsz colsf haskey linkfail stride, 0 <= stride -> forall sr kr n s f bs,
     rows_world s f bs sr kr ->
-    post (hmm_ctor_then_destroy mgr rsz crewsz cols haskey linkfail true sr kr n) s
+    post (hmm_ctor_then_destroy mgr rsz crewsz colsf haskey linkfail stride true sr kr n) s
          (fun _ s' => st_is s' f bs (nextb s')) (fun s' => st_is s' f bs (nextb s')).
 Proof. exact Effects2Proofs.hmm_ctor_then_destroy_post. Qed.
 Print Assumptions C03_hashmultimap_ctor_no_leak.
 
 Theorem C03_hashmultimap_ctor_any_schedule :
-  forall mgr rsz crewsz cols n sch,
-    post (hmm_ctor_then_destroy mgr rsz crewsz cols true true true (-1) (-2) n) (rows_init sch)
+  forall mgr rsz crewsz colsf stride n sch,
+    0 <= stride ->
+    post (hmm_ctor_then_destroy mgr rsz crewsz colsf true true stride true (-1) (-2) n) (rows_init sch)
          (fun _ s' => back_to_start s') (fun s' => back_to_start s').
 Proof. exact Effects2Proofs.hmm_ctor_any_schedule. Qed.
 Print Assumptions C03_hashmultimap_ctor_any_schedule.
@@ -280,36 +282,10 @@ Print Assumptions C03_hashmultimap_ctor_any_schedule.
    crew a second time *)
 Theorem C03_hashmultimap_dtor_without_guard_refuted :
   exists (n : nat) (sch : list bool),
-    is_stuck (hmm_ctor_then_destroy 1 40 24 2 true true false (-1) (-2) n (rows_init sch)) = true /\
-    is_stuck (hmm_ctor_then_destroy 1 40 24 2 true true true (-1) (-2) n (rows_init sch)) = false.
+    is_stuck (hmm_ctor_then_destroy 1 40 24 (fun i => Z.to_nat (1 + i)) true true 8 false (-1) (-2) n (rows_init sch)) = true /\
+    is_stuck (hmm_ctor_then_destroy 1 40 24 (fun i => Z.to_nat (1 + i)) true true 8 true (-1) (-2) n (rows_init sch)) = false.
 Proof. exact Effects2Proofs.hmm_dtor_without_guard_refuted. Qed.
 Print Assumptions C03_hashmultimap_dtor_without_guard_refuted.
-
-(* TreeSet::pvCopy on a two-level tree (root with any number of items, any number of leaf children with any number of items
-   each... uniform per level): TreeSet(const TreeSet&, MemManager) as after 806b9fe plus the destructor.  For every schedule -
-   i.e. a failure at ANY node, at the node allocation or at any item - every node and every item built so far is released
-   exactly once and the world ends as it started.  (Arbitrary depth is exercised by the oracle histories only.) *)
-Theorem C03_treeset_copy_two_level_no_leak :
-  forall mgr nodesz parsz crewsz rootitems leafitems srr src nch s f bs,
-    rows_world s f bs srr src ->
-    post (ts2_copy_then_destroy mgr nodesz parsz crewsz rootitems leafitems true srr src nch) s
-         (fun _ s' => st_is s' f bs (nextb s')) (fun s' => st_is s' f bs (nextb s')).
-Proof. exact Effects2Proofs.ts2_copy_then_destroy_post. Qed.
-Print Assumptions C03_treeset_copy_two_level_no_leak.
-
-Theorem C03_treeset_copy_two_level_any_schedule :
-  forall mgr nodesz parsz crewsz rootitems leafitems nch sch,
-    post (ts2_copy_then_destroy mgr nodesz parsz crewsz rootitems leafitems true (-1) (-2) nch) (rows_init sch)
-         (fun _ s' => back_to_start s') (fun s' => back_to_start s').
-Proof. exact Effects2Proofs.ts2_copy_any_schedule. Qed.
-Print Assumptions C03_treeset_copy_two_level_any_schedule.
-
-Theorem C03_treeset_copy_two_level_double_destroy_refuted :
-  exists (nch : nat) (sch : list bool),
-    is_stuck (ts2_copy_then_destroy 1 96 168 24 2 2 false (-1) (-2) nch (rows_init sch)) = true /\
-    is_stuck (ts2_copy_then_destroy 1 96 168 24 2 2 true (-1) (-2) nch (rows_init sch)) = false.
-Proof. exact Effects2Proofs.ts2_double_destroy_refuted. Qed.
-Print Assumptions C03_treeset_copy_two_level_double_destroy_refuted.
 
 (* MemPool::MergeFrom at the resource level: two pools take a and b buffers from the memory manager, one is merged into the
    other (every buffer of the source is linked into the destination, as after 7f37c9f), both are destroyed: for every schedule
@@ -336,20 +312,20 @@ Import Effects3 Effects3Proofs.
 
 (* SegmentedArray(begin, end, memManager) (218-235): delegated-to constructor, AddBackCrt per item (a new segment whenever the
    current one is full; the capacity stays increased when the item creation throws), catch { pvDecCount(0); pvDecCapacity(0); },
-   then ~SegmentedArray of the delegating constructor on the emptied object: for every schedule, every item count and every
-   segment capacity >= 1 every item is destroyed once, every segment returned once, nothing twice *)
+   then ~SegmentedArray of the delegating constructor on the emptied object: for every schedule, every item count and ANY positive
+   capacity per segment (segcapf is an arbitrary function of the segment index) every item is destroyed once, every segment returned once, nothing twice *)
 Theorem C03_segmentedarray_range_ctor_no_leak :
-  forall mgr segsz segcap src kr n s f bs,
-    (0 < segcap)%nat -> rows_world s f bs src kr ->
-    post (sa_ctor_then_destroy mgr segsz segcap src n) s
+  forall mgr segsz segcapf src kr n s f bs,
+    (forall k, 0 < segcapf k)%nat -> rows_world s f bs src kr ->
+    post (sa_ctor_then_destroy mgr segsz segcapf src n) s
          (fun _ s' => st_is s' f bs (nextb s')) (fun s' => st_is s' f bs (nextb s')).
 Proof. exact Effects3Proofs.sa_ctor_then_destroy_post. Qed.
 Print Assumptions C03_segmentedarray_range_ctor_no_leak.
 
 Theorem C03_segmentedarray_range_ctor_any_schedule :
-  forall mgr segsz segcap n sch,
-    (0 < segcap)%nat ->
-    post (sa_ctor_then_destroy mgr segsz segcap (-1) n) (rows_init sch)
+  forall mgr segsz segcapf n sch,
+    (forall k, 0 < segcapf k)%nat ->
+    post (sa_ctor_then_destroy mgr segsz segcapf (-1) n) (rows_init sch)
          (fun _ s' => back_to_start s') (fun s' => back_to_start s').
 Proof. exact Effects3Proofs.sa_ctor_any_schedule. Qed.
 Print Assumptions C03_segmentedarray_range_ctor_any_schedule.
@@ -372,3 +348,84 @@ Theorem C03_hashset_growth_any_history_any_schedule :
     post (hs_history c mgr gensz ops (-1)) (rows_init sch) (fun _ s' => back_to_start s') (fun s' => back_to_start s').
 Proof. exact Effects3Proofs.hs_history_any_schedule. Qed.
 Print Assumptions C03_hashset_growth_any_history_any_schedule.
+
+(* ================= part 4 (Effects4.v): TreeSet::pvCopy on ARBITRARY trees; growth points from the capacity policy ========= *)
+From C03 Require Effects4 Effects4Proofs.
+Import Effects4 Effects4Proofs.
+
+(* TreeSet::pvCopy / pvDestroy (TreeSet.h:1017-1062) on a source tree of ANY shape - any depth, every node with its own number
+   of items and its own number of children - proved by mutual induction on the tree.  From any state in which the regions at
+   and above the next block id are untouched: on success the copy's footprint (every node block, every item cell) is exactly
+   added; on an exception - a failure at ANY node, at its allocation or at any of its items - every node and item built so far
+   has been released exactly once and the state is exactly the one before the call.  Never Stuck. *)
+Theorem C03_treeset_pvcopy_any_tree :
+  forall mgr nodesz src t sb s f L nb,
+    0 <= sb -> st_is s f L nb -> dlist L nb -> (forall l, nb <= fst l -> f l = false) -> (forall x, 0 <= x -> f (src, x) = true) ->
+    match pv_copy mgr nodesz src t sb s with
+    | (Val bt, s') => exists nb', nb <= nb' /\ st_is s' (fun l => bt_occ bt l || f l) (bt_blks mgr nodesz bt ++ L) nb' /\
+                                  dlist (bt_blks mgr nodesz bt ++ L) nb' /\ Forall (fun x => nb <= x) (ids (bt_blks mgr nodesz bt))
+    | (Exc, s') => exists nb', nb <= nb' /\ st_is s' f L nb'
+    | (Stuck, _) => False
+    end.
+Proof. exact Effects4Proofs.pv_copy_ok. Qed.
+Print Assumptions C03_treeset_pvcopy_any_tree.
+
+(* pvDestroy(root) on any built tree releases exactly its footprint *)
+Theorem C03_treeset_pvdestroy_any_tree :
+  forall mgr nodesz bt s f L nb,
+    st_is s (fun l => bt_occ bt l || f l) (bt_blks mgr nodesz bt ++ L) nb -> dlist (bt_blks mgr nodesz bt ++ L) nb ->
+    (forall l, In (fst l) (ids (bt_blks mgr nodesz bt)) -> f l = false) ->
+    post (pv_destroy mgr nodesz bt) s (fun _ s' => st_is s' f L nb /\ dlist L nb) (fun _ => False).
+Proof. exact Effects4Proofs.pv_destroy_post. Qed.
+Print Assumptions C03_treeset_pvdestroy_any_tree.
+
+(* TreeSet(const TreeSet&, MemManager) as after 806b9fe on any tree, then the destructor: every schedule *)
+Theorem C03_treeset_copy_ctor_any_tree_no_leak :
+  forall mgr nodesz parsz crewsz src kr t s f bs,
+    rows_world s f bs src kr ->
+    post (tsn_copy_then_destroy mgr nodesz parsz crewsz true src t) s
+         (fun _ s' => st_is s' f bs (nextb s')) (fun s' => st_is s' f bs (nextb s')).
+Proof. exact Effects4Proofs.tsn_copy_then_destroy_post. Qed.
+Print Assumptions C03_treeset_copy_ctor_any_tree_no_leak.
+
+Theorem C03_treeset_copy_ctor_any_tree_any_schedule :
+  forall mgr nodesz parsz crewsz t sch,
+    post (tsn_copy_then_destroy mgr nodesz parsz crewsz true (-1) t) (rows_init sch)
+         (fun _ s' => back_to_start s') (fun s' => back_to_start s').
+Proof. exact Effects4Proofs.tsn_copy_any_tree_any_schedule. Qed.
+Print Assumptions C03_treeset_copy_ctor_any_tree_any_schedule.
+
+Theorem C03_treeset_copy_ctor_any_tree_double_destroy_refuted :
+  exists (sch : list bool),
+    is_stuck (tsn_copy_then_destroy 1 96 168 24 false (-1) sample_tree (rows_init sch)) = true /\
+    is_stuck (tsn_copy_then_destroy 1 96 168 24 true (-1) sample_tree (rows_init sch)) = false.
+Proof. exact Effects4Proofs.tsn_double_destroy_refuted. Qed.
+Print Assumptions C03_treeset_copy_ctor_any_tree_double_destroy_refuted.
+
+(* HashSet growth with the growth points DERIVED from the capacity policy (pvAdd grows iff !(mCount < mCapacity), mCapacity =
+   capf(generation)), for any policy capf, any number of insertions, every schedule (failed insertions shift the growth points) *)
+Theorem C03_hashset_growth_capacity_policy_no_leak :
+  forall c mgr gensz capf n src kr s f bs,
+    rows_world s f bs src kr ->
+    post (hs_history_auto c mgr gensz capf n src) s (fun _ s' => st_is s' f bs (nextb s')) (fun s' => st_is s' f bs (nextb s')).
+Proof. exact Effects3Proofs.hs_history_auto_post. Qed.
+Print Assumptions C03_hashset_growth_capacity_policy_no_leak.
+
+(* The FIRST insertion into a HashSet that has no bucket array (fresh, after Clear(true), ...): pvAddGrow creates the bucket array
+   and the bucket params, adds the item, and on a failure destroys BOTH (Destroy(memManager, !hasBuckets)); with the destructor
+   and the crew, for every schedule: never Stuck, every block returned exactly once *)
+Theorem C03_hashset_first_insert_no_leak :
+  forall mgr bufsz parsz crewsz src s f bs,
+    st_is s f bs (nextb s) -> dlist bs (nextb s) -> (forall l, nextb s <= fst l -> f l = false) -> f src = true ->
+    post (first_insert_scn mgr bufsz parsz crewsz true src) s
+         (fun _ s' => st_is s' f bs (nextb s')) (fun s' => st_is s' f bs (nextb s')).
+Proof. exact Effects4Proofs.first_insert_scn_post. Qed.
+Print Assumptions C03_hashset_first_insert_no_leak.
+
+(* the shape `Destroy(GetMemManager(), false)` orphans the params of a failed first insertion (leak witness) *)
+Theorem C03_hashset_first_insert_params_orphaned_refuted :
+  exists (sch : list bool),
+    (let '(_, s') := first_insert_scn 1 64 16 24 false (-1, 0) (rows_init sch) in blocks s' <> []) /\
+    (let '(_, s') := first_insert_scn 1 64 16 24 true (-1, 0) (rows_init sch) in blocks s' = []).
+Proof. exact Effects4Proofs.first_insert_params_orphaned_refuted. Qed.
+Print Assumptions C03_hashset_first_insert_params_orphaned_refuted.
